@@ -103,7 +103,9 @@ def records(name, chain="L", resnum=900, rot=None, origin=(0, 0, 0), tag="HETATM
     elif name.startswith("ion:"):
         ion = name[4:]
         el = IONS[ion]
-        resn, atoms, expect = ion, [(ion if not ion[0].isdigit() else ion, el, (0, 0, 0))], {}
+        # atom names as in the wwPDB dictionary: the element symbol (residue FE2 -> atom FE, IOD -> I)
+        an = ion if (el == "X" or ion[0].isdigit()) else el.upper()
+        resn, atoms, expect = ion, [(an, el, (0, 0, 0))], {}
     elif name.startswith("dna:"):
         resn, atoms, expect = nucleotide(name[4:])
         tag = "ATOM  "
